@@ -1099,8 +1099,31 @@ def rereg_case(draw, shard, tier):
         return dict(a=6.8e6 * 6 ** d.u() / (1 - e), e=e, i=d.u(0.05, 3.0), raan=d.u(0, 6.28), argp=d.u(0, 6.28),
                     nu=d.u(0, 6.28))
 
+    # creations under the same name that the library refuses (malformed coordinates of ANOTHER site, unknown parent
+    # frame), attempted after a successful one: the station that stays registered must go on converting consistently
+    refusals = [[dict(kind=d.pick(*REFUSED), lat=d.u(-89.0, 89.0), lon=d.u(-180.0, 360.0)) for _ in range(d.int(0, 2))]
+                for _ in range(2)]
     return dict(shard=shard, mjd=d.int(41800, 57700), sod_us=d.int(3000, 83000) * 10**6 + d.int(0, 999999),
-                stations=[geo(), geo()], orbits=[kep(), kep()], state=_state(d))
+                stations=[geo(), geo()], orbits=[kep(), kep()], state=_state(d), refusals=refusals)
+
+
+REFUSED = ["no-altitude", "altitude-none", "four-values", "latitude-text", "one-value", "altitude-text", "none",
+           "unknown-parent"]
+
+
+def _refused_call(create_station, name, r):
+    lat, lon = r["lat"], r["lon"]
+    kw = {}
+    arg = {"no-altitude": (lat, lon), "altitude-none": (lat, lon, None), "four-values": (lat, lon, 10.0, 20.0),
+           "latitude-text": ("x", lon, 10.0), "one-value": (lat,), "altitude-text": [lat, lon, "a"], "none": None,
+           "unknown-parent": (lat, lon, 10.0)}[r["kind"]]
+    if r["kind"] == "unknown-parent":
+        kw["parent_frame"] = "NoSuchFrame"
+    try:
+        create_station(name, arg, **kw)
+    except Exception:
+        return True
+    return False
 
 
 def check_rereg(case):
@@ -1117,6 +1140,7 @@ def check_rereg(case):
     dt = mkdate(case["mjd"], case["sod_us"], case.get("label", "UTC"))
     x = np.array(case["state"], float)
     worst = 0.0
+    cls = []
     name = f"R{case['shard']}x{_rereg[0]}S"
     for n, (lat, lon, alt) in enumerate(case["stations"]):
         fr = create_station(name, (lat, lon, alt))
@@ -1131,6 +1155,27 @@ def check_rereg(case):
             raise Violation("reregistered-station",
                             f"station '{name}' created {'again ' if n else ''}at ({lat}, {lon}, {alt}): an ITRF point "
                             f"lands {err:.3g} m from where WGS-84 puts it")
+        for r in (case.get("refusals") or [[], []])[n]:
+            if not _refused_call(create_station, name, r):
+                # accepted after all: the name now belongs to a site this check does not know
+                return dict(nt=False, cls=[f"accepted:{r['kind']}"], ratio=worst)
+            cls.append(f"refused:{r['kind']}")
+            now = frames.get_frame(name)
+            sv = StateVector(list(x), dt, "cartesian", "ITRF")
+            there = sv.copy(frame=now)
+            got = np.asarray(there.base, float)
+            back = np.asarray(there.copy(frame="ITRF").base, float)
+            err = float(np.linalg.norm(got[:3] - want))
+            errb = float(np.linalg.norm(back[:3] - x[:3]))
+            via = np.asarray(sv.copy(frame="EME2000").copy(frame=now).base, float)
+            errp = float(np.linalg.norm(via[:3] - got[:3]))
+            worst = max(worst, err / 1e-6, errb / 1e-6, errp / 1e-5)
+            if err > 1e-6 or errb > 1e-6 or errp > 1e-5:
+                raise Violation("station-after-refused-creation",
+                                f"station '{name}' at ({lat}, {lon}, {alt}); create_station('{name}', <{r['kind']}, other "
+                                f"site>) was refused; afterwards ITRF -> station is {err:.3g} m from WGS-84, ITRF -> station "
+                                f"-> ITRF {errb:.3g} m from the identity, ITRF -> EME2000 -> station {errp:.3g} m from "
+                                f"ITRF -> station")
     name = f"R{case['shard']}x{_rereg[0]}O"
     epoch = Date(case["mjd"], 43200.0)
     for n, k in enumerate(case["orbits"]):
@@ -1148,7 +1193,7 @@ def check_rereg(case):
             raise Violation("reregistered-orbit-frame",
                             f"orbit frame '{name}' created {'again ' if n else ''}: a point lands {err:.3g} m, "
                             f"{errv:.3g} m/s from (state - orbit state at epoch)")
-    return dict(nt=True, cls=[era_label(case["mjd"])], ratio=worst)
+    return dict(nt=True, cls=[era_label(case["mjd"])] + cls, ratio=worst)
 
 
 def env_eop_once():
